@@ -52,6 +52,9 @@ pub enum Fault {
     LineTableNearMax { base: u64, step: u64 },
     /// binary: move the k-th code block so that it ends `past` words after xFFFF (0 = exactly at the top)
     BlockToTop { k: u32, past: u16 },
+    /// binary: the source position recorded for every label := u64::MAX - back (a position no
+    /// assembler run produces; only a damaged or hand-made object file carries it)
+    LabelSrcNearMax { back: u64 },
 }
 #[derive(Clone, Debug, Serialize, Deserialize, PartialEq)]
 pub struct TScn {
@@ -585,6 +588,14 @@ fn apply_fault(bytes: &mut Vec<u8>, f: &Fault, others: &[Vec<u8>], text: bool) {
                 }
             }
         }
+        Fault::LabelSrcNearMax { back } => {
+            let chunks = binary_chunks(bytes);
+            for (p, _) in chunks.iter().filter(|(_, id)| *id == 1) {
+                if p + 12 <= bytes.len() {
+                    bytes[p + 4..p + 12].copy_from_slice(&(u64::MAX - back).to_le_bytes());
+                }
+            }
+        }
         Fault::BlockToTop { k, past } => {
             let chunks = binary_chunks(bytes);
             let code: Vec<usize> = chunks.iter().filter(|(_, id)| *id == 0).map(|(p, _)| *p).collect();
@@ -708,6 +719,9 @@ fn gen_faults(r: &mut Rng, sample: &[u8], text: bool, nfiles: usize) -> Vec<Faul
     if !text && r.chance(1, 12) {
         v.push(Fault::LineTableNearMax { base: u64::MAX - r.below(12), step: r.below(6) });
     }
+    if !text && r.chance(1, 16) {
+        v.push(Fault::LabelSrcNearMax { back: r.below(10) });
+    }
     if !text && r.chance(1, 12) {
         v.push(Fault::BlockToTop { k: r.below(4) as u32, past: *r.pick(&[0u16, 0, 1, 2, 0xFFFF]) });
     }
@@ -784,6 +798,30 @@ impl TCheck {
         }
         out.sim_time = objs.len() as u64;
         let n = objs.len();
+        if p == Prop::C26 && !s.faults.is_empty() {
+            let v = s.victim % n;
+            let mut bytes = match serialize_in(&objs[v], false, s.entropy ^ 0x26) {
+                Ok(b) => b,
+                Err(pm) => return fail(v as u64, "panic-in-serialize", pm),
+            };
+            let stored = vec![bytes.clone()];
+            for f in &s.faults {
+                apply_fault(&mut bytes, f, &stored, false);
+                out.bump(fault_name(f));
+            }
+            match deserialize_in(&bytes, false, s.entropy ^ 0x62) {
+                Ok(Some(o)) => {
+                    out.bump("probe.damaged-object-in-link");
+                    objs[v] = o;
+                }
+                Ok(None) => {}
+                Err(_) => {
+                    // a panic while reading is C19's to report
+                    out.bump("harness.foreign-divergence");
+                    return None;
+                }
+            }
+        }
         match p {
             Prop::C17 | Prop::C18 => {
                 let text = p == Prop::C18;
@@ -1152,7 +1190,7 @@ fn fault_name(f: &Fault) -> &'static str {
         Fault::Field { .. } | Fault::ReplaceInLine { .. } => "fired.disk-field",
         Fault::InvalidUtf8 { .. } => "fired.disk-utf8",
         Fault::RandomBytes(_) => "fired.disk-random",
-        Fault::LineTableNearMax { .. } | Fault::BlockToTop { .. } => "fired.disk-field",
+        Fault::LineTableNearMax { .. } | Fault::BlockToTop { .. } | Fault::LabelSrcNearMax { .. } => "fired.disk-field",
     }
 }
 
@@ -1233,7 +1271,7 @@ impl Check for TCheck {
             Prop::C20 => "Sets of 2-4 files with symbol tables sharing a 6-name label universe (defined in one file and external elsewhere; external everywhere; defined in two files = conflict) and blocks that are disjoint, touching, overlapping by one word or starting at the same address. For each set every link tree (all orders x all bracketings: 2/12/120) is evaluated, each link in its own simulated process. All trees succeed iff the reference linker says the set is linkable; every node of every tree equals the reference union-with-resolution (image, labels with external flags, pending relocations from the .LINKER_INFO table). Non-trivial: an external resolved by another file, or a conflict.",
             Prop::C21 => "At every fresh assembly (with and without debug symbols; .external before, between, after its uses; inside and outside blocks) and at every node of every link tree: if some .fill names an external nobody linked so far defines, load_obj_file fails with UnresolvedExternal; otherwise it succeeds and every formerly-external .fill holds the defining address in simulator memory. Non-trivial: the set has at least one external .fill.",
             Prop::C22 => "At every successfully linked node of every link tree over 2-3 files with debug symbols: for each address with a statement line in some input, rev_lookup_line/read_line give that input line's trimmed text and lookup_line maps back; for each label, get_label_source (queried with the listed spelling) is a span of the combined source that reads the label ignoring case. Non-trivial: >=2 inputs and a label in a file linked second or later.",
-            Prop::C26 => "Link arm: every error returned by any link of any tree over sets with conflicts and overlapping blocks: span.first(), span.iter(), Error::span(), help() under catch_unwind. Assemble arm (stateless, disclosed): a source fault (duplicate label in another case, undefined label, missing/extra/nested .orig/.end, statement or label outside a block, offset past the field, external in a PC-relative operand, block into I/O space, overlapping or wrapping blocks) injected into a generated file; every span lies inside the source on character boundaries; for label errors the first span reads a label. Non-trivial: an error was produced.",
+            Prop::C26 => "Link arm: every error returned by any link of any tree over sets with conflicts and overlapping blocks: span.first(), span.iter(), Error::span(), help() under catch_unwind; in 1/6 of the sets one file first goes through a simulated disk that rewrites the source positions of its labels / the line numbers of its line table to values near usize::MAX (damaged-object arm): the link must still return a queryable error, not panic. Assemble arm (stateless, disclosed): a source fault (duplicate label in another case, undefined label, missing/extra/nested .orig/.end, statement or label outside a block, offset past the field, external in a PC-relative operand, block into I/O space, overlapping or wrapping blocks) injected into a generated file; every span lies inside the source on character boundaries; for label errors the first span reads a label. Non-trivial: an error was produced.",
         };
         Meta {
             rule,
@@ -1273,6 +1311,15 @@ impl Check for TCheck {
                 if r.chance(1, 2) {
                     s.src_fault = Some((r.below(14) as u8, r.below(64) as u32));
                     s.files.truncate(1);
+                } else if r.chance(1, 3) {
+                    // damaged-object arm: one file of the set went through a disk that rewrote the
+                    // positions recorded in its symbol table; link errors must still be queryable
+                    s.victim = r.below(s.files.len() as u64) as usize;
+                    s.faults = match r.below(3) {
+                        0 => vec![Fault::LabelSrcNearMax { back: r.below(10) }],
+                        1 => vec![Fault::LineTableNearMax { base: u64::MAX - r.below(12), step: r.below(6) }],
+                        _ => vec![Fault::LabelSrcNearMax { back: r.below(10) }, Fault::LineTableNearMax { base: u64::MAX - r.below(12), step: r.below(6) }],
+                    };
                 }
             }
             _ => {}
